@@ -907,6 +907,27 @@ func (st *State) sliceAppend(s Val, vs []Val) Val {
 	return Val{Typ: s.Typ, C: []Term{r, Add(n, IntLit(int64(len(vs))))}}
 }
 
+// sliceConcat models append(s, t...): a fresh backing array whose first len(s) elements are those of s and
+// whose next len(t) elements are those of t.
+func (st *State) sliceConcat(s, t Val) Val {
+	elem := sliceElem(s.Typ)
+	r := st.freshRef("slice")
+	n, m := s.C[1], t.C[1]
+	st.assume(Ge(n, TZero))
+	st.assume(Ge(m, TZero))
+	j := Term{"j!cc", SInt}
+	for _, c := range comps(elem) {
+		name := elemPrefix(elem) + c.Suffix
+		st.x.noteLeaf(name, c)
+		a := st.heapGet(name, ArrSort(ArrSort(c.Sort)))
+		inner := st.fresh("cat", ArrSort(c.Sort))
+		st.assume(Forall([]Term{j}, Implies(And(Ge(j, TZero), Lt(j, n)), Eq(Select(inner, j), Select(Select(a, s.C[0]), j)))))
+		st.assume(Forall([]Term{j}, Implies(And(Ge(j, TZero), Lt(j, m)), Eq(Select(inner, Add(n, j)), Select(Select(a, t.C[0]), j)))))
+		st.heapSetAt(name, Store(a, r, inner), &r)
+	}
+	return Val{Typ: s.Typ, C: []Term{r, Add(n, m)}}
+}
+
 // ---- obligations ----
 
 func (st *State) oblige(name string, tags []string, goal Term, desc string) {
